@@ -444,14 +444,15 @@ func checkCodec(c *core.Check, which string) {
 				}
 				t := []aspec.Seg{{K: "lit", S: "body"}, {K: "lit", S: strings.ToLower(tn)}}
 				op := simpleOp("POST", t)
-				op.Body = aspec.Body{K: "json", Schema: &aspec.Schema{K: "ref", To: tn}, Req: true}
+				// (the body is declared required / optional in turn; documents arrive with their length announced or chunked)
+				op.Body = aspec.Body{K: "json", Schema: &aspec.Schema{K: "ref", To: tn}, Req: (k/6)%2 == 0}
 				a.Paths = append(a.Paths, aspec.PathItem{Template: t, Ops: []aspec.Op{op}})
 				for _, dc := range docsFor(rs, rng, 3) {
 					caseN++
 					cid := fmt.Sprintf("b%d", caseN)
 					bs, _ := json.Marshal(dc.doc)
 					bg.Cases = append(bg.Cases, driver.ReqCase{ID: cid, Method: "POST", Path: "/body/" + strings.ToLower(tn), Headers: map[string][]string{"Content-Type": {"application/json"}},
-						Body: string(bs), HasBody: true, Script: driver.Script{Parse: true}})
+						Body: string(bs), HasBody: true, Chunked: caseN%2 == 0, Script: driver.Script{Parse: true}})
 					metas[cid] = meta{typ: id + "/" + tn, sch: rs, doc: bs, mut: dc.mut, prop: dc.prop}
 				}
 			}
